@@ -112,6 +112,10 @@ def _label_pool(kind, n, pools, stem):
         return ['%s%d' % (stem, i) for i in range(n)]
     if kind == 'bool':
         return [False, True][:n]
+    if kind == 'int-huge':       # date codes / time stamps: large magnitude, consecutive values (relative difference 5e-8)
+        return [20240101 + ((7 * i + 3) % 31) for i in range(n)]
+    if kind == 'float-huge':     # the same as floats
+        return [1.7e9 + ((5 * i + 2) % 17) for i in range(n)]
     if kind == 'float-big':      # any number of float labels, first appearance not sorted, not integer-valued
         return [((37 * i + 3) % 101) / 4.0 + 0.125 for i in range(n)]
     return pools[kind][:n]
@@ -1254,6 +1258,17 @@ def tier_c(run, thorough):
                          'many-folds,%s-fold-labels' % fk[:-4], function='calc_rdm_crossnobis')
                 bd.check(orc_poisson, dict(seed=k, conds=conds, folds=folds, P=2, via='direct' if k % 2 else 'calc_rdm'),
                          'poisson_cv,many-folds,%s-fold-labels' % fk[:-4], function='calc_rdm_poisson_cv')
+    # fold labels of large magnitude that differ only in the last digits (date codes, time stamps)
+    k = 0
+    for (C, M, R) in [(3, 3, 1), (2, 4, 2), (4, 5, 1)]:
+        for fk in ('int-huge', 'float-huge'):
+            k += 1
+            conds, folds = _design(C, M, R, ckinds[k % 5], fk, orders[k % 4], seed=k)
+            bd.check(orc_crossnobis, dict(seed=300 + k, conds=conds, folds=folds, P=3, noise=('none', 'single', 'list')[k % 3],
+                                          remove_mean=bool(k % 2), via='calc_rdm' if k % 2 else 'direct'),
+                     'large-magnitude-fold-labels', function='calc_rdm_crossnobis')
+            bd.check(orc_poisson, dict(seed=300 + k, conds=conds, folds=folds, P=2, via='direct' if k % 2 else 'calc_rdm'),
+                     'poisson_cv,large-magnitude-fold-labels', function='calc_rdm_poisson_cv')
     k = 0
     for (C, M, R) in [(3, 3, 1), (2, 4, 2), (4, 2, 1)]:
         for (lam, w) in ((1, 0), (0, 0.1), (0, 0), (0.5, 0), (0, 1.0)):
